@@ -232,9 +232,30 @@ def varying_case(rec, seedt, tier):
     order = int(rng.choice(ORDERS))
     h = (order + 1) // 2
     N = int(rng.choice([3, 10, 50, 200, 5000, 20000, 40000] + ([70000] if tier == "thorough" else [])))
-    kind = str(rng.choice(["constant", "ramp", "small", "large", "intvec"]))
+    kind = str(rng.choice(["constant", "ramp", "small", "large", "intvec", "int-ends-ramp",
+                           "periodic", "first-eq-last", "const-but-one", "sorted", "mostly-int"]))
     if kind == "constant":
         sh = np.full(N, float(rng.uniform(-4, 4)))
+    elif kind == "int-ends-ramp":
+        # shift vectors that look special from a summary (their ends, their first elements) only
+        sh = np.linspace(float(rng.integers(-3, 1)), float(rng.integers(1, 4)), N)
+    elif kind == "periodic":
+        sh = float(rng.uniform(0.2, 3)) * np.sin(2 * np.pi * int(rng.integers(1, 4))
+                                                 * np.arange(N) / max(N - 1, 1)) \
+            + float(rng.choice([0.0, 0.25, -1.5]))
+        sh[-1] = sh[0]
+    elif kind == "first-eq-last":
+        sh = rng.uniform(-5, 5, size=N)
+        sh[-1] = sh[0]
+    elif kind == "const-but-one":
+        sh = np.full(N, float(rng.uniform(-4, 4)))
+        sh[int(rng.integers(0, N))] += float(rng.uniform(0.1, 0.9))
+    elif kind == "sorted":
+        sh = np.sort(rng.uniform(-5, 5, size=N))
+    elif kind == "mostly-int":
+        sh = rng.integers(-4, 5, size=N).astype(float)
+        k = max(1, N // 10)
+        sh[rng.integers(0, N, size=k)] += rng.uniform(0.05, 0.95, size=k)
     elif kind == "ramp":
         sh = np.linspace(float(rng.uniform(-3, 0)), float(rng.uniform(0, 3)), N)
     elif kind == "small":
